@@ -8,7 +8,7 @@ PROPERTY = 'C05'
 LEVEL = 'exploration'
 SHARDS = {'quick': 4, 'thorough': 16}
 RULE = (
-    'Function level: (i) raw head mappings (2-40 series; chain, star, clique and random connected overlap graphs; '
+    'Function level: (i) raw head mappings (2-40 series, one in 400 with 1010-1500; chain, star, clique and random connected overlap graphs; '
     'arbitrary crossing values up to 1.7e9; levels crossed by a single series mixed in) handed to the real '
     'find_offsets, (ii) G-intervals collections of (t, H) series handed to the real get_series_time_offsets.  Oracle '
     'on every return value: per-series residual sums vanish (1e-9 * scale), objective at the returned point <= '
@@ -30,6 +30,7 @@ SIZES = {'quick': dict(hm=1600, gi=400, ds=120, cli=12, units=16), 'thorough': d
 REQUIRED = {
     tier: {
         'find_offsets-calls-checked': 200,
+        'head-mappings-with-1000+-series': 1,
         'get_series_time_offsets-calls-checked': 50,
         'graph:chain': 20,
         'graph:star': 20,
@@ -51,9 +52,13 @@ REQUIRED = {
 MIN_NONTRIVIAL = {'quick': 100, 'thorough': 2000}
 
 
-def gen_head_mapping(rng):
+def gen_head_mapping(rng, many=False):
     n = rng.randint(2, 40) if rng.random() < 0.3 else rng.randint(2, 9)
     graph = rng.choice(['chain', 'star', 'clique', 'random'])
+    if many:
+        # more than a thousand series in one fit (a site with decades of record)
+        n = rng.randint(1010, 1500)
+        graph = rng.choice(['chain', 'random'])
     scale = rng.choice([1.0, 3600.0, 1e6, 1.7e9])
     truth = [rng.uniform(-1, 1) * scale for _ in range(n)]
     shape = {}
@@ -95,7 +100,7 @@ def gen_head_mapping(rng):
     ids = list(range(n))
     if rng.random() < 0.5:
         # arbitrary (sortable) series identifiers
-        ids = sorted(rng.sample(range(1000), n))
+        ids = sorted(rng.sample(range(max(1000, 10 * n)), n))
     hm = {k: [(ids[s], t) for s, t in rng.sample(seq, len(seq))] for k, seq in items}
     return hm, graph, n
 
@@ -344,8 +349,11 @@ def run(ctx):
 
     s = SIZES[ctx.tier]
     rng = ctx.rng('head-mappings')
-    for _ in range(ctx.share(s['hm'])):
-        hm, graph, n = gen_head_mapping(rng)
+    for i in range(ctx.share(s['hm'])):
+        many = i % 400 == 7
+        if many:
+            ctx.rec.hit('head-mappings-with-1000+-series')
+        hm, graph, n = gen_head_mapping(rng, many=many)
         check_find_offsets(ctx, rng, hm, graph, n)
     rng = ctx.rng('intervals')
     for _ in range(ctx.share(s['gi'])):
